@@ -2,6 +2,10 @@
 use crate::{choice::Rng, types::Case};
 
 pub fn generate(prop: &str, thorough: bool, rng: &mut Rng) -> Case {
+    // properties with a memory-only and a hybrid part: a third of the runs exercise the hybrid cache
+    if matches!(prop, "C06" | "C11" | "C16" | "C17") && rng.chance(1, 3) {
+        return crate::hybgen::generate(prop, thorough, rng);
+    }
     match prop {
         "C02" | "C05" | "C11" | "C13" | "C16" | "C18" => crate::memgen::generate(prop, thorough, rng),
         "C06" | "C17" => crate::memgen::generate(prop, thorough, rng),
